@@ -1,4 +1,5 @@
 import MongoModel.Wire
+import MongoModel.Filter
 open MongoModel MongoModel.Wire
 
 def handle (ts : List String) : List String :=
@@ -11,6 +12,12 @@ def handle (ts : List String) : List String :=
     match parseVal r with
     | some (a, r') => match parseVal r' with
       | some (b, []) => showBool (pyEq a b)
+      | _ => ["?parse"]
+    | _ => ["?parse"]
+  | "match" :: r =>
+    match parseVal r with
+    | some (f, r') => match parseVal r' with
+      | some (d, []) => showR showBool (filterApplies f d)
       | _ => ["?parse"]
     | _ => ["?parse"]
   | _ => ["?cmd"]
